@@ -167,3 +167,96 @@ Fixpoint trace_w (fx : bool) (w : cache * cache) (ops : list zop) : list (out * 
 
 Definition model_trace_w (fx : bool) (g : zcfg) (ops : list zop) :=
   map (fun x => let '(r0, r1, w) := x in (r0, r1, show_state (fst w), show_state (snd w))) (trace_w fx (init_w g) ops).
+
+(** ** EncoderCache *)
+Record zenc := mkZE { ze_cached : bool; ze_pos : Z; ze_cur : Z; ze_reserve : bool; ze_get : list (option Z) }.
+
+Inductive zeop :=
+| ZES (positions : list Z) (mm : list Z) (reserve : bool)
+| ZEP (layer img : Z)
+| ZEC (run : bool)
+| ZER (b e : Z)
+| ZEQ.
+
+Definition to_eop (o : zeop) : eop :=
+  match o with
+  | ZES ps mm r => EStart ps (map Z.to_nat mm) r
+  | ZEP l i => EPut (Z.to_nat l) (Z.to_N i)
+  | ZEC r => ECompute r
+  | ZER b e => ERemove b e
+  | ZEQ => EResume
+  end.
+
+Definition eqb_optZ (a : option N) (b : option Z) : bool :=
+  match a, b with
+  | None, None => true
+  | Some x, Some y => Z.of_N x =? y
+  | _, _ => false
+  end.
+
+Definition eqb_enc (layers : list nat) (e : enc) (o : zenc) : bool :=
+  Bool.eqb (e_cached e) (ze_cached o) && (e_pos e =? ze_pos o) && (e_cur e =? ze_cur o) && Bool.eqb (e_reserve e) (ze_reserve o) &&
+  (length layers =? length (ze_get o))%nat &&
+  forallb (fun lo => eqb_optZ (lookupN (e_data e) (fst lo)) (snd lo)) (combine layers (ze_get o)).
+
+(** [None] in the observation = the operation panicked *)
+Fixpoint first_diff_e (fx : bool) (layers : list nat) (e : enc) (i : nat) (steps : list (zeop * option zenc)) : option nat :=
+  match steps with
+  | [] => None
+  | (o, b) :: t =>
+      match estep fx e (to_eop o), b with
+      | None, None => None
+      | Some e', Some ob => if eqb_enc layers e' ob then first_diff_e fx layers e' (S i) t else Some i
+      | _, _ => Some i
+      end
+  end.
+
+Definition chk_ehistory (fx : bool) (steps : list (zeop * option zenc)) : bool :=
+  match first_diff_e fx [0%nat; 3%nat] enc_init 0 steps with None => true | Some _ => false end.
+
+(** WrapperCache(EncoderCache, Causal) *)
+Inductive zewop :=
+| ZWF (batch : list (Z * Z * Z)) (img : option (Z * Z))
+| ZWR (q b e : Z)
+| ZWQ (q p : Z).
+
+Definition to_ewop (o : zewop) : ewop :=
+  match o with
+  | ZWF l img => EWForward (map (fun x => let '(q, p, t) := x in (Z.to_nat q, p, Z.to_N t)) l)
+                           (match img with Some (a, i) => Some (Z.to_nat a, Z.to_N i) | None => None end)
+  | ZWR q b e => EWRemove (Z.to_nat q) b e
+  | ZWQ q p => EWResume (Z.to_nat q) p
+  end.
+
+Fixpoint first_diff_ew (fx : bool) (w : enc * cache) (i : nat) (steps : list (zewop * (option zenc * zobs))) : option nat :=
+  match steps with
+  | [] => None
+  | (o, (be, bc)) :: t =>
+      match ewstep fx w (to_ewop o), be with
+      | None, None => None
+      | Some (w', r), Some ob =>
+          match r with
+          | OPanic => match o_out bc with BPanic => None | _ => Some i end
+          | _ => if eqb_out r (o_out bc) && eqb_state (snd w') bc && eqb_enc [0%nat] (fst w') ob
+                 then first_diff_ew fx w' (S i) t else Some i
+          end
+      | _, _ => Some i
+      end
+  end.
+
+Definition chk_ewhistory (fx : bool) (g : zcfg) (n1 : Z) (steps : list (zewop * (option zenc * zobs))) : bool :=
+  let c := init None (Z.to_nat (z_maxseq g)) (Z.to_nat (z_capacity g)) (Z.to_nat (z_maxbatch g))
+                (Z.to_nat (z_cpad g)) (Z.to_nat (z_bpad g)) (z_shift g) in
+  (Z.of_nat (length (cells c)) =? n1) &&
+  match first_diff_ew fx (enc_init, c) 0 steps with None => true | Some _ => false end.
+
+(** WrapperCache of two caches with their own windows (0 = none) *)
+Definition init_w2 (g : zcfg) (w2 : Z) : cache * cache :=
+  (init_of g,
+   init (if w2 =? 0 then None else Some w2) (Z.to_nat (z_maxseq g)) (Z.to_nat (z_capacity g)) (Z.to_nat (z_maxbatch g))
+        (Z.to_nat (z_cpad g)) (Z.to_nat (z_bpad g)) (z_shift g)).
+
+Definition chk_whistory2 (fx : bool) (g : zcfg) (w2 n0 n1 : Z) (steps : list (zop * (zobs * zobs))) : bool :=
+  let w := init_w2 g w2 in
+  (Z.of_nat (length (cells (fst w))) =? n0) && (Z.of_nat (length (cells (snd w))) =? n1) &&
+  match first_diff_w fx w 0 steps with None => true | Some _ => false end.
